@@ -49,4 +49,20 @@ Theorem C05_context_level_clamped :
   ((65535 < plain_sum (ps_ctx pass s))%Z -> snd (get_context_level pass s) = 65535).
 Proof. exact get_context_level_clamped. Qed.
 
+(* UNBOUNDED, on the grammar model: for every program of the fragment `begin stmts end.` (statements: call, assignment, begin/end,
+   repeat/until, try/finally, nested to any depth, any length) the parser model ends without error and its logical lines are exactly
+   one per statement / opener / closer, at the level of the nesting depth (Model/Fragment.v: expected_prog); no line has a parent *)
+From PasfmtVerif Require Import Model.Fragment Proofs.FragmentProofs.
+Theorem C05_fragment_statements_one_per_line_at_depth :
+  forall ss : stmts,
+  let r := parse_file_model (render_prog ss) [] in
+  r_err r = None /\ r_lines r = expected_prog ss /\ r_toks r = render_prog ss.
+Proof. exact fragment_parse_file. Qed.
+
+Theorem C05_fragment_no_child_lines :
+  forall ss : stmts,
+  Forall (fun l : lline => ll_parent l = None)
+    (r_lines (parse_file_model (render_prog ss) [])).
+Proof. exact fragment_no_parents. Qed.
+
 
